@@ -16,6 +16,7 @@ import (
 	"strconv"
 	"strings"
 	"sync"
+	"time"
 
 	"github.com/cube2222/octosql/octosql"
 
@@ -65,7 +66,23 @@ func jsonLine(row []octosql.Value) string {
 	return "{" + strings.Join(m, ",") + "}"
 }
 
-func parseCell(col int, s string, quoted bool) (octosql.Value, error) {
+// column kinds of a result shape: an Int column, a String column, a Time column (carried as its RFC3339 text,
+// which is what every output mode prints)
+const (
+	kInt = iota
+	kStr
+	kTime
+)
+
+type shape struct {
+	cols  []string
+	kinds []int
+}
+
+var shapeABC = shape{cols: []string{"a", "b", "c"}, kinds: []int{kInt, kStr, kInt}}
+var shapeTimeC = shape{cols: []string{"time", "c"}, kinds: []int{kTime, kInt}}
+
+func parseCell(kind int, s string, quoted bool) (octosql.Value, error) {
 	s = strings.TrimSpace(s)
 	if quoted {
 		if s == "<null>" {
@@ -74,6 +91,9 @@ func parseCell(col int, s string, quoted bool) (octosql.Value, error) {
 		if len(s) >= 2 && s[0] == '\'' && s[len(s)-1] == '\'' {
 			return octosql.NewString(s[1 : len(s)-1]), nil
 		}
+		if kind == kTime {
+			return octosql.NewString(s), nil
+		}
 		n, err := strconv.ParseInt(s, 10, 64)
 		return octosql.NewInt(n), err
 	}
@@ -81,14 +101,16 @@ func parseCell(col int, s string, quoted bool) (octosql.Value, error) {
 	if s == "" {
 		return octosql.NewNull(), nil
 	}
-	if col == 1 {
+	if kind != kInt {
 		return octosql.NewString(s), nil
 	}
 	n, err := strconv.ParseInt(s, 10, 64)
 	return octosql.NewInt(n), err
 }
 
-func parseOutput(mode string, out string) ([][]octosql.Value, error) {
+func parseOutput(mode string, out string, sh shape) ([][]octosql.Value, error) {
+	colNames := sh.cols
+	nc := len(colNames)
 	rows := [][]octosql.Value{}
 	lines := strings.Split(strings.TrimRight(out, "\n"), "\n")
 	if out == "" {
@@ -103,7 +125,7 @@ func parseOutput(mode string, out string) ([][]octosql.Value, error) {
 			if err := d.Decode(&m); err != nil {
 				return nil, fmt.Errorf("json line %q: %v", l, err)
 			}
-			row := make([]octosql.Value, 3)
+			row := make([]octosql.Value, nc)
 			for i, c := range colNames {
 				switch v := m[c].(type) {
 				case nil:
@@ -123,17 +145,17 @@ func parseOutput(mode string, out string) ([][]octosql.Value, error) {
 			rows = append(rows, row)
 		}
 	case "csv":
-		if len(lines) == 0 || lines[0] != "a,b,c" {
+		if len(lines) == 0 || lines[0] != strings.Join(colNames, ",") {
 			return nil, fmt.Errorf("csv header missing: %q", out)
 		}
 		for _, l := range lines[1:] {
 			cells := strings.Split(l, ",")
-			if len(cells) != 3 {
+			if len(cells) != nc {
 				return nil, fmt.Errorf("csv line %q", l)
 			}
-			row := make([]octosql.Value, 3)
+			row := make([]octosql.Value, nc)
 			for i := range cells {
-				v, err := parseCell(i, cells[i], false)
+				v, err := parseCell(sh.kinds[i], cells[i], false)
 				if err != nil {
 					return nil, err
 				}
@@ -152,12 +174,12 @@ func parseOutput(mode string, out string) ([][]octosql.Value, error) {
 				continue
 			}
 			cells := strings.Split(strings.Trim(l, "|"), "|")
-			if len(cells) != 3 {
+			if len(cells) != nc {
 				return nil, fmt.Errorf("table line %q", l)
 			}
-			row := make([]octosql.Value, 3)
+			row := make([]octosql.Value, nc)
 			for i := range cells {
-				v, err := parseCell(i, cells[i], true)
+				v, err := parseCell(sh.kinds[i], cells[i], true)
 				if err != nil {
 					return nil, err
 				}
@@ -167,19 +189,22 @@ func parseOutput(mode string, out string) ([][]octosql.Value, error) {
 		}
 	case "stream_native":
 		for _, l := range lines {
-			// {+0001-01-01T00:00:00Z| 2, 'x', 1 |}
+			// {+0001-01-01T00:00:00Z| 2, 'x', 1 |}   and   {~2021-01-01 00:00:00 +0000 UTC}  (a watermark)
+			if strings.HasPrefix(l, "{~") {
+				continue
+			}
 			if !strings.HasPrefix(l, "{+") || !strings.HasSuffix(l, "|}") {
 				return nil, fmt.Errorf("stream_native line %q (a retraction or an unknown shape)", l)
 			}
 			i := strings.IndexByte(l, '|')
 			body := l[i+1 : len(l)-2]
 			cells := strings.Split(body, ",")
-			if len(cells) != 3 {
+			if len(cells) != nc {
 				return nil, fmt.Errorf("stream_native line %q", l)
 			}
-			row := make([]octosql.Value, 3)
+			row := make([]octosql.Value, nc)
 			for j := range cells {
-				v, err := parseCell(j, cells[j], true)
+				v, err := parseCell(sh.kinds[j], cells[j], true)
 				if err != nil {
 					return nil, err
 				}
@@ -192,6 +217,10 @@ func parseOutput(mode string, out string) ([][]octosql.Value, error) {
 }
 
 type cliJob struct {
+	family    string // "file", "group_counting" (Cli cases); "limit_over_flush" (CliLimitOf cases); "reference"
+	noretr    bool
+	sh        shape
+	refKey    string // limit_over_flush: which reference run gives the rows of the query without its LIMIT
 	mode      int
 	placement int // 0 top level, 1 subquery, 2 WITH
 	keys      []ops.Key
@@ -240,6 +269,26 @@ func buildCLI(dir string) (string, error) {
 		return "", fmt.Errorf("go build of the CLI failed: %v\n%s", err, out)
 	}
 	return bin, nil
+}
+
+// groupCounts: the final result of SELECT a, b, COUNT(*) AS c ... GROUP BY a, b (keys compared by Value.Compare,
+// NULL keys form a group of their own)
+func groupCounts(rows [][]octosql.Value) [][]octosql.Value {
+	var out [][]octosql.Value
+	for _, row := range rows {
+		found := false
+		for _, g := range out {
+			if g[0].Compare(row[0]) == 0 && g[1].Compare(row[1]) == 0 {
+				g[2] = octosql.NewInt(g[2].Int + 1)
+				found = true
+				break
+			}
+		}
+		if !found {
+			out = append(out, []octosql.Value{row[0], row[1], octosql.NewInt(1)})
+		}
+	}
+	return out
 }
 
 func coqRows(rows [][]octosql.Value) string {
@@ -298,7 +347,32 @@ func main() {
 		}
 		insertOnly := spec.Kind == ops.NLimit || spec.NoRetr
 		script := ops.GenChangelog(r, arity, -1, 12, insertOnly, true)
-		obs := spec.Run(script)
+		var obs ops.Obs
+		if spec.Kind == ops.NPrinter && i%45 == 3 {
+			// live_table: the printer with live = true over a source that pauses 300 ms in the middle, so that an
+			// intermediate frame is drawn (records carry no event time, as the live refresh requires); the final
+			// frame is the observation and must be what batch_table prints
+			spec.Live = true
+			if spec.Limit == 0 {
+				spec.Limit = 1 + int64(r.Intn(K))
+			}
+			for k := range script {
+				if !script[k].IsWM {
+					script[k].Rec.EventTime = time.Time{}
+				}
+			}
+			at := len(script) / 2
+			if at == 0 && len(script) > 1 {
+				at = 1
+			}
+			obs = spec.RunOver(&ops.SlowSource{Events: script, Pause: map[int]time.Duration{at: 300 * time.Millisecond}})
+			cf.Count("inproc_live_printer")
+			if obs.Frames > 1 {
+				cf.Count("inproc_live_printer_with_intermediate_frame")
+			}
+		} else {
+			obs = spec.Run(script)
+		}
 		recs, retr, _, dups := ops.ScriptFacts(script)
 		nontrivial := recs-2*retr >= 3 && dups > 0 && n > 0 && int(n) < recs-2*retr
 		js := map[string]interface{}{"kind": "in-process", "arity": arity, "node": spec.JSON(), "input": lib.EventsJSON(script), "observed": obs.JSON()}
@@ -354,19 +428,125 @@ func main() {
 		for i := 0; i < nk; i++ {
 			keys = append(keys, ops.Key{Desc: r.Bool(), E: ops.Expr{Kind: ops.EVar, I: r.Intn(3)}})
 		}
-		for _, ks := range [][]ops.Key{nil, keys} {
-			for n := 0; n <= K; n++ {
-				for m := range modes {
-					for p := 0; p < 3; p++ {
-						inner := fmt.Sprintf("SELECT a, b, c FROM %s%s LIMIT %d", file, orderBy(ks), n)
-						q := inner
-						switch p {
-						case 1:
-							q = "SELECT a, b, c FROM (" + inner + ") t"
-						case 2:
-							q = "WITH t AS (" + inner + ") SELECT a, b, c FROM t"
+		// family "file": the source is the file itself (no retraction possible)
+		// family "group_counting": the source is GROUP BY a, b TRIGGER COUNTING k over the file: it retracts each
+		// group's previous row whenever it fires again, so Schema.NoRetractions is false
+		type source struct {
+			family string
+			sql    string
+			rows   [][]octosql.Value
+			noretr bool
+		}
+		var srcs []source
+		if d != 2 || f.Tier == "thorough" {
+			srcs = append(srcs, source{"file", "SELECT a, b, c FROM " + file, rows, true})
+		}
+		if d != 1 || f.Tier == "thorough" {
+			// its own file: 3..5 groups with 1..4 rows each in a random interleaving, so that groups overtake each
+			// other in COUNT(*) while the query runs (every overtaking is a retraction + insertion downstream)
+			var pool, grows [][]octosql.Value
+			ng := 3 + r.Intn(3)
+			for len(pool) < ng {
+				cand := genFileRow(r)
+				fresh := true
+				for _, p := range pool {
+					if p[0].Compare(cand[0]) == 0 && p[1].Compare(cand[1]) == 0 {
+						fresh = false
+					}
+				}
+				if fresh {
+					pool = append(pool, cand)
+				}
+			}
+			for _, p := range pool {
+				for c := 1 + r.Intn(4); c > 0; c-- {
+					grows = append(grows, []octosql.Value{p[0], p[1], octosql.NewInt(int64(r.Intn(2)))})
+				}
+			}
+			for i := len(grows) - 1; i > 0; i-- {
+				j := r.Intn(i + 1)
+				grows[i], grows[j] = grows[j], grows[i]
+			}
+			var gb strings.Builder
+			for _, row := range grows {
+				gb.WriteString(jsonLine(row) + "\n")
+			}
+			gfile := fmt.Sprintf("g%d.json", d)
+			if err := os.WriteFile(filepath.Join(f.Out, gfile), []byte(gb.String()), 0o644); err != nil {
+				fmt.Fprintln(os.Stderr, err)
+				os.Exit(2)
+			}
+			k := 1 + r.Intn(2)
+			srcs = append(srcs, source{"group_counting", fmt.Sprintf("SELECT a, b, COUNT(*) AS c FROM %s GROUP BY a, b TRIGGER COUNTING %d", gfile, k), groupCounts(grows), false})
+		}
+		for _, src := range srcs {
+			keySets := [][]ops.Key{nil, keys}
+			if !src.noretr {
+				// a retracting source changes column c (the count) of a group by retracting the old row and inserting
+				// the new one: order by the updated column, both directions (rows move across the LIMIT boundary)
+				keySets = append(keySets,
+					[]ops.Key{{Desc: false, E: ops.Expr{Kind: ops.EVar, I: 2}}, {Desc: r.Bool(), E: ops.Expr{Kind: ops.EVar, I: r.Intn(2)}}},
+					[]ops.Key{{Desc: true, E: ops.Expr{Kind: ops.EVar, I: 2}}})
+			}
+			for _, ks := range keySets {
+				for n := 0; n <= K; n++ {
+					for m := range modes {
+						for p := 0; p < 3; p++ {
+							if !src.noretr && p == 2 && f.Tier != "thorough" {
+								continue // quick tier: the retracting source at top level and as a subquery (WITH takes the same planner path)
+							}
+							inner := fmt.Sprintf("%s%s LIMIT %d", src.sql, orderBy(ks), n)
+							q := inner
+							switch p {
+							case 1:
+								q = "SELECT a, b, c FROM (" + inner + ") t"
+							case 2:
+								q = "WITH t AS (" + inner + ") SELECT a, b, c FROM t"
+							}
+							jobs = append(jobs, &cliJob{family: src.family, noretr: src.noretr, sh: shapeABC, mode: m, placement: p, keys: ks, n: n, file: file, rows: src.rows, query: q})
 						}
-						jobs = append(jobs, &cliJob{mode: m, placement: p, keys: ks, n: n, file: file, rows: rows, query: q})
+					}
+				}
+			}
+		}
+	}
+	// family "limit_over_flush": Q LIMIT n against Q for queries with an operator that keeps emitting after its
+	// source ended (GROUP BY time ... TRIGGER ON WATERMARK over max_diff_watermark) above an inner LIMIT (or none)
+	nEv := 1
+	if f.Tier == "thorough" {
+		nEv = 4
+	}
+	for d := 0; d < nEv; d++ {
+		r := rng.Fork()
+		nrows := 6 + r.Intn(7)
+		sec := 1
+		var b strings.Builder
+		for i := 0; i < nrows; i++ {
+			sec += r.Intn(3) // non-decreasing, with equal instants
+			fmt.Fprintf(&b, "{\"time\":\"2021-01-01T00:00:%02dZ\",\"v\":%d}\n", sec, r.Intn(3))
+		}
+		file := fmt.Sprintf("ev%d.json", d)
+		if err := os.WriteFile(filepath.Join(f.Out, file), []byte(b.String()), 0o644); err != nil {
+			fmt.Fprintln(os.Stderr, err)
+			os.Exit(2)
+		}
+		for _, m := range []int{nrows - 1, nrows/2 + 1, 0} {
+			inner := "SELECT * FROM " + file + " e"
+			if m > 0 {
+				inner += fmt.Sprintf(" LIMIT %d", m)
+			}
+			q := "WITH src AS (" + inner + "), wm AS (SELECT * FROM max_diff_watermark(source=>TABLE(src), max_diff=>INTERVAL 1 SECOND, time_field=>DESCRIPTOR(time)) w) " +
+				"SELECT time, COUNT(*) AS c FROM wm GROUP BY time TRIGGER ON WATERMARK"
+			key := fmt.Sprintf("%s/%d", file, m)
+			jobs = append(jobs, &cliJob{family: "reference", sh: shapeTimeC, mode: 2, refKey: key, file: file, query: q})
+			for n := 0; n <= K; n++ {
+				for mo := range modes {
+					for p := 0; p < 2; p++ {
+						ql := fmt.Sprintf("%s LIMIT %d", q, n)
+						if p == 1 {
+							ql = "SELECT time, c FROM (" + ql + ") x"
+						}
+						jobs = append(jobs, &cliJob{family: "limit_over_flush", sh: shapeTimeC, mode: mo, placement: p, n: n, refKey: key, file: file, query: ql})
 					}
 				}
 			}
@@ -394,26 +574,55 @@ func main() {
 	}
 	close(ch)
 	wg.Wait()
+	refs := map[string][][]octosql.Value{}
 	for _, j := range jobs {
+		if j.family != "reference" {
+			continue
+		}
+		if j.err != nil {
+			fmt.Fprintf(os.Stderr, "c05: reference query failed: %q: %v %s\n", j.query, j.err, firstLine(j.stderr))
+			os.Exit(2)
+		}
+		rows, perr := parseOutput(modes[j.mode], j.stdout, j.sh)
+		if perr != nil {
+			fmt.Fprintf(os.Stderr, "c05: reference query output unparseable: %q: %v\n", j.query, perr)
+			os.Exit(2)
+		}
+		refs[j.refKey] = rows
+	}
+	for _, j := range jobs {
+		if j.family == "reference" {
+			continue
+		}
 		var obs ops.Obs
 		obs.IsRows = true
 		var perr error
 		if j.err != nil {
 			obs.Err = fmt.Errorf("exit: %v: %s", j.err, j.stderr)
 		} else {
-			obs.Rows, perr = parseOutput(modes[j.mode], j.stdout)
+			obs.Rows, perr = parseOutput(modes[j.mode], j.stdout, j.sh)
+		}
+		src := j.rows
+		if j.family == "limit_over_flush" {
+			src = refs[j.refKey]
 		}
 		dup := false
-		for a := range j.rows {
+		for a := range src {
 			for b := 0; b < a; b++ {
-				if fmt.Sprint(j.rows[a]) == fmt.Sprint(j.rows[b]) {
+				if fmt.Sprint(src[a]) == fmt.Sprint(src[b]) {
 					dup = true
 				}
 			}
 		}
-		nontrivial := len(j.rows) >= 3 && dup && j.n > 0 && j.n < len(j.rows)
-		js := map[string]interface{}{"kind": "cli", "query": j.query, "output_mode": modes[j.mode], "file_rows": rowsJSON(j.rows), "stdout": j.stdout, "observed": obs.JSON()}
-		idx := cf.Add(fmt.Sprintf("Cli %s %s %s %s %s %s", coqModes[j.mode], lib.CoqBool(j.placement > 0), ops.CoqKeys(j.keys), lib.Z(int64(j.n)), coqRows(j.rows), obs.Coq()), js, nontrivial)
+		js := map[string]interface{}{"kind": "cli", "family": j.family, "query": j.query, "output_mode": modes[j.mode], "source_rows": rowsJSON(src), "stdout": j.stdout, "observed": obs.JSON()}
+		var idx int
+		if j.family == "limit_over_flush" {
+			idx = cf.Add(fmt.Sprintf("CliLimitOf %s %s %s", lib.Z(int64(j.n)), coqRows(src), obs.Coq()), js, len(src) >= 3 && j.n > 0 && j.n < len(src))
+		} else {
+			idx = cf.Add(fmt.Sprintf("Cli %s %s %s %s %s %s %s", coqModes[j.mode], lib.CoqBool(j.placement > 0), lib.CoqBool(j.noretr), ops.CoqKeys(j.keys), lib.Z(int64(j.n)), coqRows(src), obs.Coq()), js,
+				len(src) >= 3 && (dup || j.family != "file") && j.n > 0 && j.n < len(src))
+		}
+		cf.Count("cli_family_" + j.family)
 		cf.Count("cli_" + modes[j.mode])
 		cf.Count([]string{"cli_top_level", "cli_subquery", "cli_with"}[j.placement])
 		if len(j.keys) > 0 {
